@@ -10,7 +10,10 @@
    still reach that attempt's listener.  The upstreamRequest carries NO generation tag: a reply reaching a recycled object is
    taken for the current user's upstream response. *)
 From Coq Require Import List ZArith Bool.
+From RecordUpdate Require Import RecordSet.
+Import RecordSetNotations.
 From MV Require Import Model.ProxyCheck.
+From MV Require Import Proofs.ProxyGen.
 From MV Require Import Model.Proxy Model.ProxySpec Proofs.ProxyReach Proofs.ProxyFamily Proofs.ProxyFam Proofs.ProxyRefute
   Proofs.ProxyThm Proofs.ProxySrc Gen.ProxyTokens.
 Import ListNotations.
@@ -57,6 +60,38 @@ Theorem c02_retry_path_clears_reuse : retry_clears_reuse proxy_src = true.
 Proof. exact (eq_refl true). Qed.
 
 (* non-vacuity: a plain answered request of the family does give its objects back; a retried one does not *)
+(* ---- timer functions of an EARLIER owner of the pooled downStream object ----
+   Timer.Stop may come after the runtime has started the timer function; the stream is then finished, its object given back to the
+   pool and taken by another request before the function runs ([EvStaleTry same] / [EvStaleGlobal same]: same = the proxy ID the
+   function captured when its timer was ARMED equals the object's current ID - false for an earlier owner's timer, newActiveStream
+   gives every owner a fresh ID).  Both timer functions compare against the captured ID (read from the source on this run: the
+   closure uses a variable assigned from atomic.LoadUint32(&s.ID) OUTSIDE the closure): *)
+Theorem c02_timer_functions_capture_the_id : try_captures_id proxy_src = true /\ global_captures_id proxy_src = true.
+Proof. exact (conj (eq_refl true) (eq_refl true)). Qed.
+(* such a function does nothing to the request that holds the object now - every configuration, EVERY state (it clears reuseBuffer
+   before any check: the current owner then simply does not give its objects back) *)
+Theorem c02_stale_timer_is_a_noop : forall c s,
+  env_step proxy_src c (EvStaleTry false) s = (s <| reuse := false |>, []) /\
+  env_step proxy_src c (EvStaleGlobal false) s = (s <| reuse := false |>, []).
+Proof. exact (fun c s => conj (proj1 (stale_timer_noop src_tree c s) eq_refl) (proj2 (stale_timer_noop src_tree c s) eq_refl)). Qed.
+Print Assumptions c02_stale_timer_is_a_noop.
+(* with the per-try function loading the ID inside the closure, i.e. comparing it with itself (switch set back): the time-out of
+   the earlier owner is executed on the current one - its attempt is reset and it is answered with the 504 produced for the other
+   request *)
+Theorem c02_stale_timer_self_compare_refuted : ~ stale_timer_statement src_try_self_compare.
+Proof. exact refuted_try_self_compare. Qed.
+Print Assumptions c02_stale_timer_self_compare_refuted.
+Example c02_stale_timer_witness :
+  g_reply_kind (summ src_try_self_compare plain_cfg sched_stale_try) = Some (KHijack, 504) /\
+  g_ended (summ src_try_self_compare plain_cfg sched_stale_try) = true /\
+  existsb (fun o => match o with OUpReset _ => true | _ => false end) (trace src_try_self_compare plain_cfg sched_stale_try) = true /\
+  g_started (summ src_tree plain_cfg sched_stale_try) = false /\
+  ph (final src_tree plain_cfg sched_stale_try) = PWaitNotify /\
+  received (final src_tree plain_cfg sched_stale_try) = false /\
+  up_alive (final src_tree plain_cfg sched_stale_try) = true /\
+  reuse (final src_tree plain_cfg sched_stale_try) = false.
+Proof. exact witness_stale_timer. Qed.
+
 Example c02_example :
   let c := mk false false false RouteForward 2 true 0 [] false 0 [] [] [] in
   In c family /\ Forall allowed sched_plain /\ gave (final proxy_src c sched_plain) = true /\
